@@ -175,11 +175,28 @@ func discharge(results []*FuncResult, timeoutS int, thorough bool, workers int) 
 	}
 	ch := make(chan job)
 	var wg sync.WaitGroup
+	// fail-fast for frame obligations: a change that makes a call abstract (everything havocked)
+	// produces one failing frame obligation per heap and ghost; once a function has several failed
+	// obligations the remaining FRAME obligations of that function are not sent to the solvers
+	// (they are reported as failed, result "skipped") - the violation is already established
+	var failMu sync.Mutex
+	failed := map[string]int{}
 	for w := 0; w < workers; w++ {
 		wg.Add(1)
 		go func() {
 			defer wg.Done()
 			for j := range ch {
+				if j.o.Kind == "frame" {
+					failMu.Lock()
+					n := failed[j.o.Fn]
+					failMu.Unlock()
+					if n >= 6 {
+						j.o.Result = "skipped"
+						j.o.Solver = "none"
+						j.o.Model = "not attempted: the function already has several failed obligations"
+						continue
+					}
+				}
 				script := j.o.RawScript
 				if script == "" {
 					script = j.vc.script(j.o)
@@ -195,6 +212,11 @@ func discharge(results []*FuncResult, timeoutS int, thorough bool, workers int) 
 				j.o.Script = script
 				if out.result != "unsat" {
 					j.o.Model = out.output
+					if !j.o.ExpectSat && !j.o.Soft {
+						failMu.Lock()
+						failed[j.o.Fn]++
+						failMu.Unlock()
+					}
 				}
 			}
 		}()
